@@ -70,10 +70,41 @@ def d16_class(cmd, rec, prev, real, dirs):
                                    for d in prev["decls"]) for si, fl in enumerate(loaded))
     if not hidden:
         return False
-    r = Ref(dirs)
+    r = Ref(dirs, lib_db.TFILES)
     r.load(prev)
     out = r.apply(cmd, loaded=loaded)
     return out == rec["out"] and common.jdump(r.listing()) == common.jdump(real)
+
+
+def _ref_with(switch, cmd, prev, dirs, ref_before):
+    r = Ref(dirs, lib_db.TFILES)
+    r.load(prev)
+    r.dirs = set(ref_before["dirs"])
+    r.extras = {k: dict(v) for k, v in ref_before["extras"].items()}
+    setattr(r, switch, True)
+    return r.apply(cmd), r.listing()
+
+
+def d38_class(cmd, rec, prev, real, dirs, ref_before):
+    """class predicate of D38: `declare` takes ANY table path below the database directory of the stack for the
+    declaration's own interned table (`isSubpath(tablefile, dbpath)`): the reference, told to do the same, implies
+    exactly what the implementation did (and the plain reference does not)"""
+    if cmd["op"] != "declare":
+        return False
+    out, listing = _ref_with("any_path_below_ups_db_is_own", cmd, prev, dirs, ref_before)
+    return out == rec["out"] and common.jdump(listing) == common.jdump(real)
+
+
+def d39_class(cmd, rec, prev, real, dirs, ref_before):
+    """class predicate of D39: a redeclaration with the table given as a stream (no force): the implementation compares
+    a streamed table only as an external file, and not at all when the version has no extra directory: the reference,
+    told not to compare the bytes of a streamed table with the declared table, implies exactly what the
+    implementation did (and the plain reference does not)"""
+    t = cmd.get("table")
+    if cmd["op"] != "declare" or not t or t[0] != "stream":
+        return False
+    out, listing = _ref_with("streamed_table_not_compared", cmd, prev, dirs, ref_before)
+    return out == rec["out"] and common.jdump(listing) == common.jdump(real)
 
 
 def d32_class(cmd, rec, want, real):
@@ -121,7 +152,7 @@ def oracle_i(ctx, i, sub, rec, impl_obs, model_obs):
 def check_case(ctx, case, steps, msteps):
     """Both oracles on one history.  steps = implementation records, msteps = model records."""
     dirs = [d for d in lib_db.all_dirs() if d not in case.get("missing", [])]
-    ref = Ref(dirs)
+    ref = Ref(dirs, lib_db.TFILES)
     prev = EMPTY
     nchange = nerr = 0
     inp = {"missing": case.get("missing", []), "cmds": case["cmds"]}
@@ -164,6 +195,7 @@ def check_case(ctx, case, steps, msteps):
         if cmd.get("noaction") and real != prev:
             ctx.fail("dry_run_is_noop", sub, impl_obs, model_obs, note="a dry run changed the database")
         # ---- oracle (ii): what the history implies ---------------------------------------------------
+        ref_before = {"dirs": set(ref.dirs), "extras": {k: dict(v) for k, v in ref.extras.items()}}
         want_out = ref.apply(cmd)
         want = ref.listing()
         if common.jdump(want) != common.jdump(real) or want_out != rec["out"]:
@@ -172,6 +204,10 @@ def check_case(ctx, case, steps, msteps):
                 cls = "D32"
             elif d16_class(cmd, rec, prev, real, dirs):
                 cls = "D16"
+            elif d39_class(cmd, rec, prev, real, dirs, ref_before):
+                cls = "D39"
+            elif d38_class(cmd, rec, prev, real, dirs, ref_before):
+                cls = "D38"
             dd = sorted(set(map(common.jdump, want["decls"])) ^ set(map(common.jdump, real["decls"])))
             td = sorted(set(map(common.jdump, want["tags"])) ^ set(map(common.jdump, real["tags"])))
             ctx.fail("history_implies/" + kind_of(cmd), sub, impl_obs, model_obs, finding=cls,
